@@ -36,8 +36,9 @@ _CS_ASSUME = ["EnvOK: GetReservePoolAddr has no collisions on the denominations 
 PROPS = {
     "C01": dict(
         suite="coinswap",
-        modules=["CantoVerif.Props.C01"] + _CS_BRIDGE_MODULES,
+        modules=["CantoVerif.Props.C01", "CantoVerif.Props.C01Monitors"] + _CS_BRIDGE_MODULES,
         theorems=[
+            "CV.Coinswap.remove_prorata_monitor",
             "CV.Coinswap.k_step", "CV.Coinswap.k_step_monitor", "CV.Coinswap.k_history", "CV.Coinswap.wf_step",
             "CV.Coinswap.k_swap", "CV.Coinswap.k_add", "CV.Coinswap.k_remove", "CV.Coinswap.k_send",
             "CV.Coinswap.trade_k", "CV.Coinswap.remove_le_prorata", "CV.Coinswap.add_then_remove_le",
